@@ -4,6 +4,7 @@ import (
 	"encoding/hex"
 	"fmt"
 	"os"
+	"runtime/debug"
 	"sort"
 	"strings"
 	"sync"
@@ -298,24 +299,74 @@ func (x *explorer) deadlineHit() bool {
 	return false
 }
 
+// subjectPanic decides whether a panic that escaped a driver's Apply / Check was raised inside the subject: the
+// first frame of the stack (innermost first) that belongs to either the repository under test or the harness
+// decides. A read the harness performs - a query handler, a keeper getter - that panics inside the repository's own
+// code is the subject's defect showing (a client asking the same question gets no answer); a panic raised by
+// harness code is a harness error.
+func subjectPanic(stack string) bool {
+	raised := false
+	for _, line := range strings.Split(stack, "\n") {
+		line = strings.TrimSpace(line)
+		if !strings.HasPrefix(line, "/") { // function lines; file lines start with a path
+			continue
+		}
+		if !raised {
+			// the frames above runtime.gopanic are the recovering deferred function and debug.Stack itself
+			raised = strings.Contains(line, "/runtime/panic.go")
+			continue
+		}
+		switch {
+		case strings.HasPrefix(line, RepoRoot+"/"):
+			return true
+		case strings.Contains(line, "/verif/harness/") || strings.Contains(line, "/harness/mc/") || strings.Contains(line, "/harness/props/"):
+			return false
+		}
+	}
+	return false
+}
+
+// RepoRoot is where the repository under test lives (stack frames below it are the subject's).
+var RepoRoot = func() string {
+	if r := os.Getenv("REPO"); r != "" {
+		return r
+	}
+	return "/repo"
+}()
+
+// guarded runs f (a driver's Apply or Check); a panic raised inside the subject becomes a finding of the driver's
+// property, any other panic is returned as a harness error text.
+func guarded(d Driver, what string, f func() []Finding) (fs []Finding, herr string) {
+	defer func() {
+		if r := recover(); r != nil {
+			st := string(debug.Stack())
+			if subjectPanic(st) {
+				prop := d.ID()
+				if i := strings.IndexByte(prop, '/'); i > 0 {
+					prop = prop[:i]
+				}
+				fs = append(fs, F(prop+"/subject-panics-when-read/"+Normalize(fmt.Sprint(r)), "while the harness was reading the state (%s) the repository's own code paniced: %v", what, r))
+				return
+			}
+			herr = fmt.Sprintf("%v", r)
+		}
+	}()
+	return f(), ""
+}
+
 // step applies op to a branch of s; returns child and its hash.
 func (x *explorer) step(e *Env, d Driver, s *State, op Op, path []string) (child *State, h [32]byte, expand bool) {
 	child = s.branch()
-	var fs []Finding
-	func() {
-		defer func() {
-			if r := recover(); r != nil {
-				// a panic escaping the driver itself (not a delivered message) is a harness error
-				x.mu.Lock()
-				if x.internal == "" {
-					x.internal = fmt.Sprintf("driver panic at %v + %s: %v", path, op.Name, r)
-				}
-				x.mu.Unlock()
-				x.stop.Store(true)
-			}
-		}()
-		fs = d.Apply(e, child, op)
-	}()
+	fs, herr := guarded(d, "step oracles of "+op.Name, func() []Finding { return d.Apply(e, child, op) })
+	if herr != "" {
+		// a panic escaping the driver itself (not a delivered message, not the subject) is a harness error
+		x.mu.Lock()
+		if x.internal == "" {
+			x.internal = fmt.Sprintf("driver panic at %v + %s: %v", path, op.Name, herr)
+		}
+		x.mu.Unlock()
+		x.stop.Store(true)
+	}
 	x.trans.Add(1)
 	x.note(op.Name, child.Last)
 	if !child.dirty && sameModel(s, child) {
@@ -330,19 +381,16 @@ func (x *explorer) step(e *Env, d Driver, s *State, op Op, path []string) (child
 	full := append(append([]string{}, path...), op.Name)
 	if first {
 		x.states.Add(1)
-		func() {
-			defer func() {
-				if r := recover(); r != nil {
-					x.mu.Lock()
-					if x.internal == "" {
-						x.internal = fmt.Sprintf("driver Check panic at %v: %v", full, r)
-					}
-					x.mu.Unlock()
-					x.stop.Store(true)
-				}
-			}()
-			fs = append(fs, d.Check(e, child)...)
-		}()
+		cfs, cerr := guarded(d, "state invariants", func() []Finding { return d.Check(e, child) })
+		fs = append(fs, cfs...)
+		if cerr != "" {
+			x.mu.Lock()
+			if x.internal == "" {
+				x.internal = fmt.Sprintf("driver Check panic at %v: %v", full, cerr)
+			}
+			x.mu.Unlock()
+			x.stop.Store(true)
+		}
 		if child.Nontrivial {
 			x.nontriv.Add(1)
 		}
@@ -411,8 +459,16 @@ func ReplayPath(e *Env, d Driver, path []string) (*State, [][]Finding, error) {
 			return s, all, fmt.Errorf("replay diverged at step %d: op %q not enabled", i, name)
 		}
 		c := s.branch()
-		fs := d.Apply(e, c, *op)
-		fs = append(fs, d.Check(e, c)...)
+		o := *op
+		fs, herr := guarded(d, "step oracles of "+o.Name, func() []Finding { return d.Apply(e, c, o) })
+		if herr != "" {
+			panic(herr)
+		}
+		cfs, cerr := guarded(d, "state invariants", func() []Finding { return d.Check(e, c) })
+		if cerr != "" {
+			panic(cerr)
+		}
+		fs = append(fs, cfs...)
 		all = append(all, fs)
 		s = c
 	}
